@@ -135,17 +135,46 @@ def match_known(known, prop, harness, check):
 
 # --------------------------------------------------------------------------
 def run_harness(spec, slot, prop, logdir, playback=False):
-    core.prepare_tree(slot, real_zeroize=spec.get("real_zeroize", False))
+    digest = core.prepare_tree(slot, real_zeroize=spec.get("real_zeroize", False))
     cmd = core.kani_cmd(spec, slot, playback=playback)
     log = os.path.join(logdir, spec["name"] + (".playback" if playback else "") + ".log")
+    # Result reuse: a harness is a deterministic function of (working tree, harness sources, options). The digest
+    # is recomputed from /repo's CURRENT tree on every run; if this very harness already ran on a byte-identical
+    # tree (e.g. for another property a minute ago) its parsed result is reused instead of re-solving.
+    ckey = None
+    if not playback and os.environ.get("VERIF_NO_REUSE") != "1":
+        import hashlib
+        ckey = hashlib.sha256((digest + spec["name"] + json.dumps([spec.get("kani_args"), spec.get("cbmc_args"), spec.get("unwindset")])).encode()).hexdigest()[:32]
+        cpath = os.path.join(core.cache_root(), "results", ckey + ".json")
+        if os.path.exists(cpath):
+            try:
+                r = json.load(open(cpath))
+                if r["parsed"].get("verdict") is not None and not r["timed_out"]:
+                    r["spec"] = spec
+                    r["reused"] = True
+                    return r
+            except Exception:
+                pass
     rc, out, to, wall = core.run_cmd(cmd, slot.tree, core.kani_env(),
                                      spec.get("timeout", 600) * (3 if playback else 1),
                                      mem_gb=(40 if playback else spec.get("rlimit_gb", 20)), log=log)
     parsed = core.parse_kani(out)
     m = re.search(r"Checking harness (\S+?)\.\.\.", out)
     parsed["harness_path"] = m.group(1) if m else None
-    return {"spec": spec, "rc": rc, "timed_out": to, "wall_s": round(wall, 1), "parsed": parsed,
-            "log": log, "cmd": " ".join(cmd)}
+    res = {"spec": spec, "rc": rc, "timed_out": to, "wall_s": round(wall, 1), "parsed": parsed,
+           "log": log, "cmd": " ".join(cmd), "reused": False, "tree_digest": digest}
+    if ckey and parsed.get("verdict") is not None and not to:
+        try:
+            os.makedirs(os.path.join(core.cache_root(), "results"), exist_ok=True)
+            slim = dict(res)
+            slim.pop("spec")
+            tmp = cpath + ".tmp%d" % os.getpid()
+            with open(tmp, "w") as f:
+                json.dump(slim, f)
+            os.replace(tmp, cpath)
+        except Exception:
+            pass
+    return res
 
 
 PLAYBACK_INTERNAL = ("Not enough det vals found", "there were still these concrete values left over",
@@ -268,7 +297,7 @@ def check_property(prop, tier, seed, only=None, jobs=0, do_replay=True, write_ev
                 cond.notify_all()
                 results.append(r)
                 c = r["cls"]
-                print("  [%s] %-44s %-12s %6.1fs  %s" % (prop, spec["name"], c["status"], r["wall_s"], c["reason"]))
+                print("  [%s] %-44s %-12s %6.1fs%s %s" % (prop, spec["name"], c["status"], r["wall_s"], " (reused)" if r.get("reused") else "", c["reason"]))
                 sys.stdout.flush()
 
     print("check %s tier=%s: %d harness(es), %d in parallel, repo %s" %
@@ -409,6 +438,7 @@ def write_ev(prop, tier, seed, meta, results, rc, nviol, wall, known_hits):
             "tagged_status": dict((s, sum(1 for ch in tagged if ch["status"] == s))
                                   for s in set(ch["status"] for ch in tagged)),
             "covers": c["covers"], "wall_s": r["wall_s"], "cbmc": st, "cmd": r["cmd"],
+            "reused_result_of_identical_tree": bool(r.get("reused")),
             "failures": [{"desc": f["desc"], "loc": f["loc"]} for f in c["failures"]][:10],
             "failures_attributed_to_other_properties": [f["desc"] for f in c["other_failures"]][:10],
         })
